@@ -412,7 +412,7 @@ func (x *runner) runRaw(u unit) {
 	if u.st == S5 {
 		ids = append(ids, idB) // B has no links, A has one
 	}
-	for _, magic := range []uint32{magicDemon, magicThirdParty, 0, 0xffffffff} {
+	for _, magic := range []uint32{magicDemon, magicThirdParty, magicUpperCase, 0, 0xffffffff} {
 		for _, id := range ids {
 			for _, cmd := range []uint32{agent.COMMAND_GET_JOB, agent.DEMON_INIT, agent.COMMAND_CHECKIN, 0xffffffff} {
 				for _, n := range []int{0, 1, 4, 47, 48, 49, 200} {
